@@ -673,9 +673,12 @@ def unwrap(M, st, fr, t, args, site):
             if all(M.assume(s2, e, tr) for e, tr in ass):
                 st.events.append(('may-panic', 'unwrap', fr.key, site[1], None, M.describe(st, v)))
     if not out:
-        # only the failing side is left on this path (a helper read in returned the Err / None itself): the path ends in the panic, and
-        # has to be kept - with no continuation the record of it would be lost with the state
-        return ('diverge', 'unwrap of %s' % M.describe(st, v))
+        # only the failing side is left on this path (a helper read in returned the Err / None itself): the path ends in the panic.  With
+        # no continuation the state is dropped, and the record of the panic would be lost with it: it is kept with the machine
+        # (robust.e1_events reads it; the path sets the other rules work on stay as they were)
+        if not hasattr(M, "panic_records"):
+            M.panic_records = []
+        M.panic_records.append(('may-panic', 'unwrap', fr.key, site[1], None, M.describe(st, v)))
     return ('fork', out)
 
 
